@@ -513,6 +513,7 @@ impl World {
         self.chain.packets.insert(seq, p2);
         if p.callback {
             // the callback runs in its own transaction; its failure does not undo the refund
+            self.ops.push(format!("# relay {} {}", seq, outcome));
             self.ops.push("tx_begin".to_string());
             let c = if outcome == "timeout" {
                 self.ops.push(format!("sudo timeout {} {}", hs(&p.channel), seq));
@@ -529,6 +530,7 @@ impl World {
     /// A sudo callback that does not correspond to any packet event of this contract.
     pub fn stray(&mut self, channel: &str, seq: u64, kind: &str) {
         self.events.push(format!("w_stray {} {} {} {}", self.now_ns, hs(channel), seq, kind));
+        self.ops.push("# stray".to_string());
         self.ops.push("tx_begin".to_string());
         let c = match kind {
             "timeout" => {
